@@ -109,9 +109,23 @@ def regen(ctx):
 
 
 # ---------------------------------------------------------------- apply-level correspondence
-def distance_pool(ctx, spec_w, scale, bias, n_rand):
+LOW12 = (0x000, 0x7FE, 0x7FF, 0x800, 0x801, 0x802, 0xFFE, 0xFFF)
+PAGES = (0, 1, 2, 5, 0x7FFFF, 0x80000)
+
+
+def distance_pool(ctx, spec_w, scale, bias, n_rand, split=False):
+    """boundary values derived from (field width, scale, bias): last accepted / first rejected on both sides of the
+    signed range +-2^(w-1)*scale and of the lax range 2^w*scale (+-scale, +-2*scale, +-1); for hi/lo split classes also
+    every page-carry pattern of the low 12 bits (0x7FF, 0x800, 0x801, 0xFFF, 0x000, ...) on several pages, both signs"""
     rng = ctx.rng
     out = set()
+    if split:
+        for page in PAGES:
+            for low in LOW12:
+                for sgn in (1, -1):
+                    out.add(sgn * (page * 4096 + low) + bias)
+        for _ in range(4):
+            out.add(rng.choice((1, -1)) * (rng.randrange(1 << 19) * 4096 + rng.choice((0x7FE, 0x800, 0x802))) + bias)
     for k in (spec_w - 1, spec_w):
         for sgn in (1, -1):
             for d in (0, scale, -scale, 1, -1, 2 * scale, -2 * scale):
@@ -143,7 +157,7 @@ def apply_cases(ctx, n_rand):
     for kind in KINDS:
         wd, scale, bias = WIDTHS[kind]
         size = KINDS[kind][4]
-        for dist in distance_pool(ctx, wd, scale, bias, n_rand):
+        for dist in distance_pool(ctx, wd, scale, bias, n_rand, split=kind in SPLIT):
             P = rng.choice([0, 4, 0x100, 0x1000, 0x10000, 0x8000000, 2, 6, 0x102, 1, 0x7ff])
             if rng.randrange(4):
                 P = P // 4 * 4
@@ -172,6 +186,39 @@ TEMPLATES = {    # instruction templates the assembler emits (field bits zero)
     'RvRelImm12': [0x93, 0x85, 0x05, 0],
 }
 PAIRS = {'RvAbs32Imm20': 'RvAbs32Imm12', 'RvRelImm20': 'RvRelImm12'}
+SPLIT = set(PAIRS) | set(PAIRS.values())     # hi/lo split classes: page-carry pools (distance_pool(split=True))
+
+
+def apply_oracle(kind, A, S, data, P, out):
+    """spec verdict on one Relocation.apply outcome (used to turn a model/implementation disagreement into a
+    concrete failing input): a record for verdict(), or None when the spec has nothing to say"""
+    if not isinstance(out, OkV):
+        return None
+    size = KINDS[kind][4]
+    rec = {'outcome': 'ok', 'addend': A, 'S': S, 'P': P}
+    wd = rc.word(out.v)
+    mask = FIELD_MASK.get(kind, (1 << (8 * size)) - 1)
+    rec['frame_ok'] = (wd & ~mask) == (rc.word(data) & ~mask)
+    hi = kind if kind in PAIRS else None
+    lo = kind if kind in PAIRS.values() else None
+    if hi or lo:
+        hi = hi or [k for k, v in PAIRS.items() if v == lo][0]
+        lo = PAIRS[hi]
+        Phi = P if kind == hi else P - 4
+        oh = out if kind == hi else rc.impl_apply(hi, A, S, TEMPLATES[hi], Phi)
+        ol = out if kind == lo else rc.impl_apply(lo, A, S, TEMPLATES[lo], Phi + 4)
+        if not (isinstance(oh, OkV) and isinstance(ol, OkV)):
+            return None
+        wh, wl = rc.word(oh.v), rc.word(ol.v)
+        base = 0 if hi == 'RvAbs32Imm20' else Phi
+        rec.update(reads=(base + rc.rv_u_imm(wh) + rc.rv_i_imm(wl)) % (1 << 32), expected=(S + A) % (1 << 32),
+                   ignoring_addend=S % (1 << 32), fits=True)
+        return rec
+    sp = rc.single_specs().get(kind)
+    if sp is None:
+        return None
+    rec.update(reads=sp['reads'](wd, P), expected=S + A, ignoring_addend=S, fits=sp['fits'](S, A, P))
+    return rec
 
 
 def make_linker_spy(relax=False):
@@ -320,7 +367,9 @@ def verdict(kind, rec):
         if kind == 'ThBlImm11':
             if abs(d) >= (1 << 22) and -(1 << 24) <= d < (1 << 24):
                 return 'known:thumb_bl'
-        elif (1 << (width - 1)) * scale <= d < span and rec['reads'] == rec['ignoring_addend'] - span + (A if kind == 'X86Rel32' else 0):
+        elif kind not in LAX_WITNESS:
+            pass        # classes that assert their exact range today: an accepted overflow is a new violation
+        elif (1 << (width - 1)) * scale <= d < span and rec['reads'] ==rec['ignoring_addend'] - span + (A if kind == 'X86Rel32' else 0):
             return 'known:range_lax'
         elif kind in ('X86Rel32', 'X86Jmp8') and -span <= d < -(1 << (width - 1)) * scale and \
                 rec['reads'] == rec['ignoring_addend'] + span + (A if kind == 'X86Rel32' else 0):
@@ -388,7 +437,7 @@ def link_search(ctx, n_rand):
             pool.append(((1 << 22) + 4, 0, 'bl'))
         if kind != 'X86Rel32' and kind in rc.single_specs() or kind in PAIRS:
             pool.append((64 + bias if kind not in ABSOLUTE else 0x1040, 8, 'addend'))
-        for D in distance_pool(ctx, wd, scale, bias, n_rand):
+        for D in distance_pool(ctx, wd, scale, bias, n_rand, split=kind in SPLIT):
             pool.append((D, 0 if kind != 'X86Rel32' else -4, None))
         for _ in range(3):
             pool.append((rng.randrange(-(1 << (wd - 1)), 1 << (wd - 1)) // scale * scale + bias,
@@ -478,6 +527,27 @@ def run(ctx):
                         recs[i][5].v if isinstance(recs[i][5], OkV) else recs[i][5].__name__)
             ctx.failed_stages.append(('correspondence', 'Model.Reloc.apply disagrees with the implementation on %d cases, first %r'
                                       % (len(bad), recs[bad[0]][:5])))
+        # spec oracle on every successful apply (independent of the model): concrete failing inputs
+        n_or = 0
+        for (kind, A, S, data, P, out) in recs:
+            if kind in ('ArmLdrImm12', 'ThBlImm11'):
+                continue      # OR-ing / partial classes: judged at link level with the assembler template only
+            if kind in ABSOLUTE and S < 0:
+                continue      # negative absolute addresses are not linker inputs (Token laxness on negatives is C10's finding)
+            orec = apply_oracle(kind, A, S, data, P, out)
+            if orec is None:
+                continue
+            n_or += 1
+            v = verdict(kind, orec)
+            if v.startswith('violation'):
+                ctx.violation({'fn': 'Relocation.apply', 'reloc': KINDS[kind][3], 'arch': KINDS[kind][0], 'cls': KINDS[kind][2],
+                               'args': {'sym_value': S, 'data': list(data), 'reloc_value': P, 'addend': A},
+                               'distance': S - P, 'result': list(out.v), 'reads': orec['reads'], 'expected': orec['expected'],
+                               'what': v[len('violation:'):], 'key': 'apply:%s:%s' % (kind, v[10:40]),
+                               'how_to_replay': '%s.%s(None, addend=%d).apply(%d, bytearray(%r), %d); decode with '
+                                                'tools/props/reloc_common.py (pairs: lo half applied to its template at P+4)'
+                                                % (KINDS[kind][1], KINDS[kind][2], A, S, list(data), P)})
+        ctx.cov['stages']['apply_oracle_evaluations'] = n_or
         dist = {}
         for r in recs:
             d = dist.setdefault(r[0], {'ok': 0, 'diag': 0, 'internal': 0})
